@@ -1,5 +1,6 @@
 import BHS.Props.C08
 import BHS.Props.SqlShape
+import BHS.Props.MerkleRootsGen
 open BHS.Props.C08
 #print axioms walk_from
 #print axioms C08_walk
@@ -16,3 +17,16 @@ open BHS.Props.C08
 #print axioms C08_zero_reachable
 #print axioms C08_interleaved_reachable
 #print axioms BHS.Props.SqlShape.page_statements
+#print axioms BHS.Props.MerkleRootsGen.getLastEvaluatedMerklerootHeight_refines
+#print axioms BHS.Props.MerkleRootsGen.HeadersDb_GetMerkleRoots_refines
+#print axioms BHS.Props.MerkleRootsGen.HeadersDb_GetTip_refines
+#print axioms BHS.Props.MerkleRootsGen.HeaderRepository_GetTip_refines
+#print axioms BHS.Props.MerkleRootsGen.HeaderRepository_GetMerkleRoots_refines
+#print axioms BHS.Props.MerkleRootsGen.GetMerkleRoots_refines
+#print axioms BHS.Props.MerkleRootsGen.handler_refines
+#print axioms BHS.Props.MerkleRootsGen.handler_matches_http_model
+#print axioms BHS.Props.MerkleRootsGen.genWalk_eq_walk
+#print axioms BHS.Props.MerkleRootsGen.C08_walk_generated
+#print axioms BHS.Props.MerkleRootsGen.C08_walk_generated_reachable
+#print axioms BHS.Props.MerkleRootsGen.C08_bad_key_generated
+#print axioms BHS.Props.MerkleRootsGen.C08_page_info_generated
